@@ -108,7 +108,9 @@ where
         max_poly_degree: usize,
     ) -> Result<Self, VerifierError> {
         // infer evaluation domain info
-        let domain_size = max_poly_degree.next_power_of_two() * options.blowup_factor();
+        // a polynomial of degree d has d + 1 coefficients; the domain is the next power of two of
+        // that number times the blowup factor (for d = 2^k - 1 this is 2^k, and for d = 1 it is 2)
+        let domain_size = (max_poly_degree + 1).next_power_of_two() * options.blowup_factor();
         let domain_generator = E::BaseField::get_root_of_unity(domain_size.ilog2());
 
         let num_partitions = channel.read_fri_num_partitions();
